@@ -379,7 +379,7 @@ func genRandom(r *vcoq.Rand, shape string) Scenario {
 // systematic: n messages, one event at each position
 func genSystematic(r *vcoq.Rand) []Scenario {
 	var out []Scenario
-	events := []string{"SetH", "SendH", "SetT", "RetErr", "Cancel", "Deadline", "CloseSend", "SetH+SetH", "SendH+SetH", "CHeader", "CtxEnd"}
+	events := []string{"SetH", "SendH", "SetT", "RetErr", "Cancel", "Deadline", "CloseSend", "SetH+SetH", "SendH+SetH", "CHeader", "CtxEnd", "SendH+CHeader"}
 	for _, shape := range shapes {
 		maxN := 5
 		if !srvHasStream(shape) {
@@ -422,6 +422,12 @@ func genSystematic(r *vcoq.Rand) []Scenario {
 						sc.Steps = append(sc.Steps, Step{K: ev, MD: genMD(r)})
 					case "SetH+SetH":
 						sc.Steps = append(sc.Steps, Step{K: "SetH", MD: [][2]int{{0, r.Range(1, 9)}}}, Step{K: "SetH", MD: [][2]int{{r.Intn(2), r.Range(1, 9)}}})
+					case "SendH+CHeader":
+						if shape == "unary" {
+							continue
+						}
+						g.sent, g.infl = true, false
+						sc.Steps = append(sc.Steps, Step{K: "SendH", MD: genMD(r)}, Step{K: "CHeader"})
 					case "SendH+SetH":
 						g.infl = g.infl || !g.sent
 						g.sent = true
@@ -487,8 +493,20 @@ func decorate(r *vcoq.Rand, sc *Scenario) {
 	sc.CMut = r.Chance(50)
 	var last [][2]int
 	has := false
+	latched := false
 	for i := range sc.Steps {
 		st := &sc.Steps[i]
+		switch st.K {
+		case "S2C":
+			latched = true
+		case "CtxEnd", "Cancel":
+			latched = true // nothing is "early" any more
+		case "SendH":
+			if !latched && i+1 < len(sc.Steps) && sc.Steps[i+1].K == "CHeader" && r.Chance(70) {
+				sc.Steps[i+1].Early = true // the client waits in Header() for these headers
+			}
+			latched = true
+		}
 		if st.K != "SetH" && st.K != "SendH" && st.K != "SetT" {
 			continue
 		}
@@ -519,6 +537,12 @@ func tagsOf(sc Scenario) []string {
 	for _, st := range sc.Steps {
 		if st.Reuse {
 			tags = append(tags, "handler-reuses-map")
+			break
+		}
+	}
+	for _, st := range sc.Steps {
+		if st.Early {
+			tags = append(tags, "client-blocked-in-Header()")
 			break
 		}
 	}
@@ -790,6 +814,21 @@ func abandonCases(o *vcoq.Out) {
 			return wait(ctl.res, "server RecvMsg")
 		}},
 	}
+	// outside the premise (the second send has no receiver): a client-streaming handler sends a second
+	// response; the client's single RecvMsg has returned; the handler must come back when the client cancels
+	variants = append(variants, variant{"second response on a client-streaming method, nobody receiving", "clientStream",
+		func(ctx context.Context, cancel func(), cc grpc.ClientConnInterface, ctl *callCtl) string {
+			ctl.cmd <- srvCmd{k: "send", m: 1}
+			select {
+			case <-ctl.res:
+			case <-time.After(stepTimeout):
+				return "the first response was not taken"
+			}
+			ctl.cmd <- srvCmd{k: "send", m: 2}
+			time.Sleep(300 * time.Microsecond)
+			cancel()
+			return wait(ctl.res, "server SendMsg (second response)")
+		}})
 	for _, v := range variants {
 		w := newWrapTransport()
 		callSeq++
@@ -805,6 +844,9 @@ func abandonCases(o *vcoq.Out) {
 		} else {
 			if autoRecv(v.shape) {
 				go func() { _ = st.SendMsg(mkReq(v.shape, 1)); _ = st.CloseSend() }()
+			}
+			if v.shape == "clientStream" {
+				go func() { _ = st.RecvMsg(newResp(v.shape)) }() // the client's single receive
 			}
 			select {
 			case <-ctl.entered:
